@@ -151,6 +151,9 @@ def main(ctx, replay=None):
                 tensors.append(("basis", {k: numpy.full(ntv, 1.0 if k == bk else 0.0) for k in keys21}))
             for _r in range(nrand):
                 tensors.append(("random", {k: rng.normal(size=ntv) * 10 ** rng.uniform(-2, 2) for k in keys21}))
+            # the map is linear: the same holds for tensors in any unit - all components tiny (1e-12) or huge (1e+9)
+            for sc10 in (-12.0, 9.0):
+                tensors.append(("random", {k: rng.normal(size=ntv) * 10 ** (sc10 + rng.uniform(-1, 1)) for k in keys21}))
             s2 = None
             for tn, (kind, comp) in enumerate(tensors):
                 C = full_tensor(comp)
